@@ -1234,6 +1234,7 @@ class Key(object):
         self._address_obj = None
         self._wif = None
         self._wif_prefix = None
+        self._wif_compressed = None
 
     def _check_public_key(self):
         """
@@ -1513,7 +1514,7 @@ class Key(object):
             else:
                 versionbyte = prefix
 
-        if self._wif and self._wif_prefix == versionbyte:
+        if self._wif and self._wif_prefix == versionbyte and self._wif_compressed == self.compressed:
             return self._wif
 
         key = versionbyte + self.secret.to_bytes(32, byteorder='big')
@@ -1522,6 +1523,7 @@ class Key(object):
         key += double_sha256(key)[:4]
         self._wif = base58encode(key)
         self._wif_prefix = versionbyte
+        self._wif_compressed = self.compressed
         return self._wif
 
     def public(self):
